@@ -275,12 +275,12 @@ impl ClientLoop {
 
         io.write(bytes, self.decode.physical).await?;
 
-        let deadline = Instant::now() + request.timeout;
+        let deadline = Instant::now().checked_add(request.timeout);
 
         // loop until we get a response with the correct tx id or we timeout
         let response = loop {
             let frame = tokio::select! {
-                _ = tokio::time::sleep_until(deadline) => {
+                _ = sleep_until(deadline) => {
                     return Err(RequestError::ResponseTimeout);
                 }
                 frame = self.reader.next_frame(io, self.decode) => {
@@ -355,9 +355,9 @@ impl ClientLoop {
         &mut self,
         duration: Duration,
     ) -> Result<(), StateChange> {
-        let deadline = Instant::now() + duration;
+        let deadline = Instant::now().checked_add(duration);
         tokio::select! {
-            _ = tokio::time::sleep_until(deadline) => {
+            _ = sleep_until(deadline) => {
                 // Timeout occurred
                 Ok(())
             }
@@ -365,6 +365,15 @@ impl ClientLoop {
                 Err(x)
             }
         }
+    }
+}
+
+/// Sleep until the deadline. `None` is a deadline beyond what an `Instant` can express (a timeout
+/// such as `Duration::MAX`): it never arrives.
+async fn sleep_until(deadline: Option<Instant>) {
+    match deadline {
+        Some(deadline) => tokio::time::sleep_until(deadline).await,
+        None => std::future::pending().await,
     }
 }
 
